@@ -4,6 +4,8 @@ import GtirbModel.DeepEq
 import GtirbModel.ProtoWF
 import GtirbModel.MsgWF
 import GtirbModel.DeepEqNodes
+import GtirbModel.Skel
+import GtirbModel.LoaderDriver
 /-! Model E, line protocol (`model msg`): the V format (an `IRV`), the M format
 (an `MIR`) and the commands `tomsg`, `frommsg`, `roundtrip`, `deepeq`,
 `canoneq`, `header`, `loadhdr`. Tokens are separated by single spaces, byte and
@@ -457,6 +459,18 @@ def driverStep (line : String) : String :=
     match readTwoIRV ts with
     | some (a, b) => tBool (deepEq a b)
     | none => "bad-op"
+  | "loadm" :: ts =>
+    -- the staged decoder over the object graph, on the skeleton of this message
+    match readMIR ts with
+    | some (m, []) =>
+      match Loader.skelOf m with
+      | none => "no-skeleton"
+      | some sk =>
+        match Loader.load {} sk with
+        | .ok (g, ir) => "ok " ++ Loader.showLoaded g ir sk
+        | .error .deser => "err:deser"
+        | .error (.forest e) => "err:forest:" ++ Forest.excName e
+    | _ => "bad-op"
   | "deepeqnodes" :: ts =>
     match readTwoIRV ts with
     | some (a, b) => " ".intercalate ((nodeVerdicts a b).foldr insertStr [])
